@@ -472,11 +472,12 @@ NeverForwardedWhileBlocked == (p.why \in {"B", "S"}) => p.upLog = <<>>
 \* the verdict of every question -- first or repeated, before or after any
 \* reconfiguration -- is the verdict of the CURRENT configuration alone
 HistInstalled == (p.stage # "idle") => live.inst = cfg.rules
-HistVerdict == Done => Outcome(p) \in (IF p.hit THEN VerdictHit(cfg, req, tab[1]) ELSE Verdict(cfg, req, tab[1]))
+HistDone == Done /\ live.n > 0          \* a finished question of a history (Boot ...)
+HistVerdict == HistDone => Outcome(p) \in (IF p.hit THEN VerdictHit(cfg, req, tab[1]) ELSE Verdict(cfg, req, tab[1]))
 HistStatements ==
     Done => IF Is01 THEN C01All(cfg, req, {AsFetched(Outcome(p), p.hit)})
             ELSE C02All(cfg, req, tab[1], {AsFetched(Outcome(p), p.hit)})
-HistRepeat == Done => RepeatEqualsFirst(cfg, req, tab[1])
+HistRepeat == HistDone => RepeatEqualsFirst(cfg, req, tab[1])
 
 \* table form (SpecGen01/02): the statements on every entry of the table
 Gen_C01 == (p.stage = "table01") =>
